@@ -358,6 +358,19 @@ def selection_histories(M, rec, rng, n_hist):
     # worker that selects or reads the engine), strictly one after the other - the selection is one
     # per process, whoever makes or reads it
     worker = ThreadPoolExecutor(max_workers=1)
+    from sym_metanet.engines import numpy as EN_
+
+    class ValueNP(EN_.Engine):
+        def __init__(self, fill):
+            super().__init__(var_type=fill)
+            self.fill = fill
+
+        def __eq__(self, other):
+            return type(other) is type(self) and other.fill == self.fill
+
+        def __hash__(self):
+            return hash(("ValueNP", self.fill))
+
     for _ in range(n_hist):
         model = E.get_current_engine()
         hist = []
@@ -399,6 +412,18 @@ def selection_histories(M, rec, rng, n_hist):
                     if r is not inst or E.get_current_engine() is not inst or sym_metanet.engine is not inst:
                         rec.violation(f"{PROP}:use(instance) did not make that instance the current engine", {"history": hist})
                     model = inst
+                elif op == "equal_instance":
+                    # engines with VALUE equality (a dataclass-like engine: equal configuration, equal engine) - selecting an
+                    # instance makes THAT object the current one, also when an equal one is selected already
+                    first_, second_ = ValueNP(0.5), ValueNP(0.5)
+                    second_.var_type = 25.0  # re-configured after construction; equality does not look at it
+                    E.use(first_)
+                    r = E.use(second_)
+                    rec.count("selections_of_an_instance_equal_to_the_current_one")
+                    if r is not second_ or E.get_current_engine() is not second_ or sym_metanet.engine is not second_:
+                        rec.violation(f"{PROP}:use(instance) did not make that instance the current engine (an equal but distinct engine object was selected before)",
+                                      {"history": hist})
+                    model = E.get_current_engine()
                 elif op == "unknown":
                     nm = rng.choice(("Numpy", "torch", "", "casadi ", "jax"))
                     try:
@@ -451,7 +476,7 @@ def selection_histories(M, rec, rng, n_hist):
             return False
 
         for _s in range(rng.randint(3, 12)):
-            op = rng.choice(("name", "name", "instance", "unknown", "get", "nonstring", "listing"))
+            op = rng.choice(("name", "name", "instance", "equal_instance", "unknown", "get", "nonstring", "listing"))
             where = "worker thread" if rng.random() < 0.35 else "main thread"
             hist.append(op if where == "main thread" else op + "@worker")
             rec.count("selection_ops")
